@@ -242,6 +242,17 @@ def _uninit(ctx, hint, shape, kind, dtype_name):
 
 def zeros(shape, dtype=None, **k):
     shape = _shape_tuple(shape)
+    if isinstance(dtype, (list, _np.dtype)) and getattr(_np.dtype(dtype), "names", None):
+        dt = _np.dtype(dtype)
+        if not anysym(shape):
+            return _np.zeros(shape, dtype=dt)
+        fields = {}
+        for n in dt.names:
+            kind = _dtype_kind(dt.fields[n][0])
+            a = SArr.const(shape, 0 if kind != "b" else False, kind)
+            a.dtype_name = dt.fields[n][0].name
+            fields[n] = a
+        return SRec(shape[0], fields)
     if not anysym(shape) and Ctx.cur is None:
         return _np.zeros(shape, dtype=dtype)
     kind = _dtype_kind(dtype)
@@ -362,6 +373,29 @@ def transpose(x):
     a = _arr(x)
     t = a.T
     return t
+
+
+def hstack(parts):
+    if not anysym(*parts) if isinstance(parts, (list, tuple)) else not _sym(parts):
+        return _np.hstack(parts)
+    parts = [_arr(p_) for p_ in parts]
+    if all(p_.ndim <= 1 for p_ in parts):
+        def one(p_):
+            e = p_._elem
+            return SArr((1,), lambda t: e(), p_.kind)
+        return concatenate([p_ if p_.ndim == 1 else one(p_) for p_ in parts])
+    return concatenate(parts, axis=1)
+
+
+def stack(arrs, axis=0):
+    """np.stack of equally long 1-d arrays: axis=1 is column_stack, axis=0 its transpose"""
+    if not anysym(*arrs):
+        return _np.stack(arrs, axis=axis)
+    arrs = [_arr(a) for a in arrs]
+    if all(a.ndim == 1 for a in arrs) and axis in (0, 1, -1):
+        cs = column_stack(arrs)
+        return cs if axis in (1, -1) else cs.T
+    raise Unsupported("np.stack other than 1-d arrays along axis 0 / 1")
 
 
 def column_stack(cols):
